@@ -257,7 +257,16 @@ def check(ctx):
             r3.ok("%s: key holes %s" % (name, sorted(ks)))
         elif bad:
             r3.bad(V(r3.id, name, "key-binding:%s" % ",".join(sorted(bad)), "parameter keys are bound to %s" % sorted(bad)))
-    r3.require_floor(6, "naming facts")
+    # the configured default is camelCase whichever way the configuration is obtained (no file / file without the key): rule shared with C19-D3
+    from c19 import check_default_sources
+    vals = check_default_sources(S, r3, only={"default_parameter_case"})
+    for v_ in r3.violations:
+        v_.rule = r3.id
+    if vals.get("default_parameter_case") == "camelCase":
+        r3.ok("default_parameter_case defaults to camelCase (Tauri's convention)")
+    else:
+        r3.bad(V(r3.id, "GenerateConfig", "parameter-case-default:%s" % vals.get("default_parameter_case"), "default_parameter_case defaults to %r, Tauri's command macro uses camelCase" % vals.get("default_parameter_case")))
+    r3.require_floor(8, "naming facts")
     rules.append(r3)
 
     # ---------------------------------------------------------------- D4
